@@ -68,7 +68,7 @@ def print_sdl(S):
         elif k in ("object", "interface"):
             impl = (" implements " + " & ".join(t["interfaces"])) if t.get("interfaces") else ""
             kw = "type" if k == "object" else "interface"
-            out.append(f"{kw} {t['name']}{impl} {{\n" + "\n".join(f"  {f['name']}{print_args(f['args'])}: {tstr(f['type'])}" for f in t["fields"]) + "\n}")
+            out.append(f"{kw} {t['name']}{impl} {{\n" + "\n".join(f"  {f['name']}{print_args(f['args'])}: {tstr(f['type'])}{f.get('sdl_directives', '')}" for f in t["fields"]) + "\n}")
         elif k == "union":
             out.append(f"union {t['name']} = " + " | ".join(t["members"]))
         elif k == "input":
@@ -76,7 +76,7 @@ def print_sdl(S):
     roots = []
     if S["query"] != "Query" or (S.get("mutation") and S["mutation"] != "Mutation") or (S.get("subscription") and S["subscription"] != "Subscription"):
         roots = ["schema { query: " + S["query"] + (f" mutation: {S['mutation']}" if S.get("mutation") else "") + (f" subscription: {S['subscription']}" if S.get("subscription") else "") + " }"]
-    return "\n".join(out + roots) + "\n"
+    return "\n".join(out + roots + list(S.get("sdl_extra", []))) + "\n"
 
 # ---- schema generation --------------------------------------------------------------------
 LEAF_FIELD_NAMES = ["id", "name", "x", "y", "z", "w", "score", "flag", "tag", "code", "kind", "label", "amount", "ratio"]
